@@ -18,6 +18,7 @@ VF_DECLARE_INPUT(struct vf_in, IN)
 #define VF_NO_REVOKE
 #define VF_CSUM_WORD(k) IN.csum[k]
 #define REF_CSUM(k) IN.csum[k]
+#define REF_SEQ0 IN.s_sequence
 #include "jgeom.h"
 #include "jenv.h"
 
